@@ -74,14 +74,27 @@ def _impl():
     }
 
 
+def _nanrow(r):
+    """a row counts as a NaN row when ANY of its components is NaN (np.any(np.isnan(data), axis=1) in get_nan_intervals):
+    None = all components NaN, a list with None entries = a partly-NaN row"""
+    return r is None or any(x is None for x in r)
+
+
 def _qarray(rows):
-    """QuaternionArray whose NaN rows are written afterwards (the constructor rejects NaN), as the suite's test_slerp_nan does"""
+    """QuaternionArray whose NaN rows / NaN components are written afterwards (the constructor rejects NaN), as the suite's
+    test_slerp_nan does; a partly-NaN row keeps its other components (legal: `Q[i, 2] = np.nan`)"""
     I = _impl()
-    filled = np.array([r if r is not None else [1.0, 0.0, 0.0, 0.0] for r in rows], float)
+    filled = np.array([[1.0, 0.0, 0.0, 0.0] if r is None else [1.0 if x is None else x for x in r] for r in rows], float)
+    nrm = np.linalg.norm(filled, axis=1)
+    filled = filled / nrm[:, None]
     Qa = I['QA'](filled)
     for i, r in enumerate(rows):
         if r is None:
             Qa[i] = np.nan
+        else:
+            for j, x in enumerate(r):
+                if x is None:
+                    Qa[i, j] = np.nan
     return Qa
 
 
@@ -189,8 +202,20 @@ def nan_sequences(rng, n_random, exhaustive_upto=7):
     return out
 
 
-def _rows_json(rows, mask):
-    return [None if m else [float(x) for x in r] for r, m in zip(rows, mask)]
+def _rows_json(rows, mask, partial=None):
+    """rows as JSON; masked rows become None (all NaN) or, when a generator `partial` is given, for about half of them a row
+    with only one, two or three NaN components"""
+    out = []
+    for r, m in zip(rows, mask):
+        if not m:
+            out.append([float(x) for x in r])
+        elif partial is not None and partial.uniform() < 0.5:
+            k = int(partial.integers(1, 4))
+            holes = set(int(h) for h in partial.choice(4, size=k, replace=False))
+            out.append([None if j in holes else float(x) for j, x in enumerate(r)])
+        else:
+            out.append(None)
+    return out
 
 
 # ------------------------------------------------------------------------------------------
@@ -219,7 +244,7 @@ def _jump_signs(rows):
     """sign (+1/-1) the jump removal must give each row: parity of the number of jumps (|diff| > 1 between two valid rows) up to it"""
     s, out = 1.0, []
     for i, r in enumerate(rows):
-        if i > 0 and rows[i - 1] is not None and r is not None and \
+        if i > 0 and not _nanrow(rows[i - 1]) and not _nanrow(r) and \
                 np.linalg.norm(np.asarray(r, float) - np.asarray(rows[i - 1], float)) > 1:
             s = -s
         out.append(s)
@@ -246,7 +271,7 @@ PRE = ['From Coq Require Import List Arith Bool. From Coq Require Import Uint63.
 def _coq_rows(rows):
     items = []
     for i, r in enumerate(rows):
-        if r is None:
+        if _nanrow(r):          # the model's None = a row with at least one NaN component
             items.append('None')
         else:
             items.append('Some (Qv %d false %s)' % (i, ' '.join(emit._hexf(float(x)) for x in r)))
@@ -305,18 +330,30 @@ def correspondence(ctx):
     if outs is not None:
         for m, o in zip(masks, outs):
             model = [tuple(x) for x in _parse_nats(o)]
-            for dim in (2, 1):
-                data = np.ones((len(m), 3)) if dim == 2 else np.ones(len(m))
-                data[np.array(m, bool)] = np.nan
+            # the model's mask entry is "row has ANY NaN component": fully-NaN rows, rows with 1..3 NaN components of 4,
+            # and 1-D data with single NaN entries; +-inf entries elsewhere are not NaN (np.isnan) and must not be reported
+            for dim in ('2-full', '2-partial', '2-partial+inf', '1'):
+                if dim == '1':
+                    data = np.ones(len(m)); data[np.array(m, bool)] = np.nan
+                else:
+                    data = np.ones((len(m), 4))
+                    for i, b in enumerate(m):
+                        if b:
+                            k = 4 if dim == '2-full' else int(ctx.rng.integers(1, 4))
+                            data[i, ctx.rng.choice(4, size=k, replace=False)] = np.nan
+                        elif dim.endswith('+inf') and ctx.rng.uniform() < 0.3:
+                            data[i, int(ctx.rng.integers(0, 4))] = np.inf if ctx.rng.uniform() < 0.5 else -np.inf
                 r = call_outcome(I['get_nan_intervals'], data)
                 impl = [tuple(int(v) for v in iv) for iv in r[1]] if r[0] == 'val' else r
                 if impl != model:
-                    ctx.disagree('get_nan_intervals', {'mask': m, 'ndim': dim}, model, impl)
+                    ctx.disagree('get_nan_intervals', {'mask': m, 'data': dim, 'nan_pattern': np.isnan(data).astype(int).tolist()}, model, impl)
                 ctx.agree('get_nan_intervals')
     # (2) remove_jumps / q_correct / slerp_nan on sequences
     exprs = []
-    for kind, rows, mask in seqs:
-        rj = _rows_json(rows, mask)
+    rjs = []
+    for k, (kind, rows, mask) in enumerate(seqs):
+        rj = _rows_json(rows, mask, partial=ctx.rng if k % 2 else None)    # every other sequence: partly-NaN rows
+        rjs.append(rj)
         exprs.append('map obs (RJ %s)' % _coq_rows(rj))
         exprs.append('obsl (SN %s)' % _coq_rows(rj))
     outs = ctx.coq_eval('list_models', PRE, exprs)
@@ -324,8 +361,9 @@ def correspondence(ctx):
         return
     dist = {}
     for k, (kind, rows, mask) in enumerate(seqs):
+        rj = rjs[k]
+        kind = kind + ('+partial' if any(r is not None and _nanrow(r) for r in rj) else '')
         dist[kind] = dist.get(kind, 0) + 1
-        rj = _rows_json(rows, mask)
         m_rj, m_sn = _parse_nats(outs[2 * k]), _parse_nats(outs[2 * k + 1])
         Qa = _qarray(rj)
         orig = np.array(Qa.array)
@@ -333,12 +371,19 @@ def correspondence(ctx):
         # remove_jumps (in place) and q_correct (copy): same sign pattern as the model
         model_signs = [(-1.0 if d[2] else 1.0) if d[0] == 0 else None for d in m_rj]
         exp = np.array([orig[i] * (s if s is not None else 1.0) for i, s in enumerate(model_signs)])
+
+        def same(out):      # bitwise on the rows the model carries; a NaN row (model None) keeps its NaN pattern and magnitudes
+            out = np.asarray(out, float)
+            if out.shape != exp.shape:
+                return False
+            return all(_bits_equal(out[i], exp[i]) if sg is not None else _bits_equal(np.abs(out[i]), np.abs(exp[i]))
+                       for i, sg in enumerate(model_signs))
         r = call_outcome(lambda: (Qa.remove_jumps(), np.array(Qa.array))[1])
-        if r[0] != 'val' or not _bits_equal(r[1], exp):
+        if r[0] != 'val' or not same(r[1]):
             ctx.disagree('remove_jumps', inp, model_signs, r[1] if r[0] == 'val' else r)
         ctx.agree('remove_jumps')
         r = call_outcome(I['q_correct'], orig.copy())
-        if r[0] != 'val' or not _bits_equal(r[1], exp):
+        if r[0] != 'val' or not same(r[1]):
             ctx.disagree('q_correct', inp, model_signs, r[1] if r[0] == 'val' else r)
         ctx.agree('q_correct')
         # slerp_nan
@@ -360,7 +405,9 @@ def correspondence(ctx):
             continue
         res = np.asarray(r[1], float)
         bad = None
-        if res.shape != orig.shape:
+        if res.shape == orig.shape and np.isnan(res).any():
+            bad = f'rows {[int(i) for i in np.where(np.isnan(res).any(axis=1))[0]]} still contain NaN'
+        elif res.shape != orig.shape:
             bad = f'shape {res.shape}'
         else:
             for i, d in enumerate(m_sn):
@@ -468,11 +515,23 @@ def o_slerp(inp):
 def o_nan_intervals(inp):
     """get_nan_intervals returns exactly the maximal runs of NaN rows (none when there is no NaN row)"""
     I = _impl()
-    m = [bool(b) for b in inp['mask']]
     dim = inp.get('ndim', 2)
-    data = np.random.default_rng(1).random((len(m), 3)) if dim == 2 else np.random.default_rng(1).random(len(m))
-    data[np.array(m, bool)] = np.nan
-    region = 'no-nan' if not any(m) else 'runs'
+    if 'pattern' in inp:        # per-row, per-component NaN flags: the row is a NaN row when ANY flag is set
+        pat = np.array(inp['pattern'], bool)
+        m = [bool(r.any()) for r in pat]
+        data = np.random.default_rng(1).random(pat.shape)
+        data[pat] = np.nan
+        region = 'no-nan' if not any(m) else ('partial-rows' if any(r.any() and not r.all() for r in pat) else 'runs')
+    else:
+        m = [bool(b) for b in inp['mask']]
+        data = np.random.default_rng(1).random((len(m), 3)) if dim == 2 else np.random.default_rng(1).random(len(m))
+        data[np.array(m, bool)] = np.nan
+        region = 'no-nan' if not any(m) else 'runs'
+    for k in inp.get('inf', []):     # +-inf is not NaN: per the code's definition (np.isnan) such rows are NOT reported
+        idx = np.unravel_index(int(k) % data.size, data.shape)
+        if not np.isnan(data[idx]):
+            data[idx] = np.inf if k % 2 else -np.inf
+            region = region if region.endswith('+inf') else region + '+inf'
     r = call_outcome(I['get_nan_intervals'], data)
     if r[0] == 'raise':
         return {'tag': f'get_nan_intervals/{region}/raises-{r[1]}', 'observed': list(r[1:]), 'expected': _max_runs(m)}
@@ -503,18 +562,18 @@ def o_remove_jumps(inp):
         return {'tag': f'{entry}/sign-pattern', 'observed': out, 'expected': exp}
     okhyp = True
     for i in range(1, len(rows)):
-        if rows[i] is None or rows[i - 1] is None:
+        if _nanrow(rows[i]) or _nanrow(rows[i - 1]):
             continue
         a, b = orig[i - 1], orig[i]
         if np.linalg.norm(b - a) > 1 and np.linalg.norm(b + a) > 1:
             okhyp = False
     if okhyp:
         for i in range(1, len(rows)):
-            if rows[i] is None or rows[i - 1] is None:
+            if _nanrow(rows[i]) or _nanrow(rows[i - 1]):
                 continue
             if np.linalg.norm(out[i] - out[i - 1]) > 1:
                 return {'tag': f'{entry}/jump-remains', 'observed': [i, out[i - 1], out[i]]}
-        if entry == 'remove_jumps' and not any(r is None for r in rows):
+        if entry == 'remove_jumps' and not any(_nanrow(r) for r in rows):
             Qa.remove_jumps()           # second call on the same object: nothing left to flip
             if not _bits_equal(np.array(Qa.array), out):
                 return {'tag': f'{entry}/second-call-changes-rows', 'observed': np.array(Qa.array), 'expected': out}
@@ -527,7 +586,7 @@ def o_slerp_nan(inp):
     I = _impl()
     rows = inp['rows']
     inplace = bool(inp.get('inplace', False))
-    mask = [r is None for r in rows]
+    mask = [_nanrow(r) for r in rows]
     runs = _max_runs(mask)
     region = 'no-nan' if not runs else ('one-run' if len(runs) == 1 else 'multi-run')
     if runs and (mask[0] or mask[-1]):
@@ -542,6 +601,10 @@ def o_slerp_nan(inp):
         return {'tag': f'slerp_nan/{region}/inplace-returns-value', 'observed': type(r[1]).__name__}
     if res.shape != orig.shape:
         return {'tag': f'slerp_nan/{region}/shape', 'observed': res.shape, 'expected': orig.shape}
+    if np.isnan(res).any():
+        bad_rows = [int(i) for i in np.where(np.isnan(res).any(axis=1))[0]]
+        kind = 'partly-nan-row-not-filled' if any(rows[i] is not None for i in bad_rows) else 'nan-left'
+        return {'tag': f'slerp_nan/{region}/{kind}', 'observed': bad_rows, 'expected': 'no NaN in the output (all NaN runs are interior)'}
     signs = _jump_signs(rows)
     for i, m in enumerate(mask):
         if not m and not _bits_equal(res[i], signs[i] * orig[i]):
@@ -642,15 +705,30 @@ def search(ctx, scale):
         m = [bool(b) for b in rng.integers(0, 2, int(rng.integers(1, 60)))]
         inp = {'mask': m, 'ndim': 2}
         ctx.check('nan_intervals', inp, _call(o_nan_intervals, inp, 'get_nan_intervals'), nontrivial_key=('m', tuple(m)))
+    # rows with only SOME NaN components (one, two or three of four), every row count 1..4 exhaustively over per-row kinds
+    kinds = [[0, 0, 0, 0], [0, 0, 1, 0], [1, 0, 0, 1], [0, 1, 1, 1], [1, 1, 1, 1]]
+    for N in (1, 2, 3, 4):
+        for code in range(len(kinds) ** N):
+            pat = [kinds[(code // len(kinds) ** k) % len(kinds)] for k in range(N)]
+            inp = {'pattern': pat, 'ndim': 2, 'inf': [code] if code % 7 == 3 else []}
+            ctx.check('nan_intervals', inp, _call(o_nan_intervals, inp, 'get_nan_intervals'),
+                      nontrivial_key=('pat', code, N) if any(any(r) for r in pat) else None)
+    for _ in range(30 * scale):
+        N = int(rng.integers(1, 40))
+        pat = [[int(rng.uniform() < 0.25) for _ in range(4)] if rng.uniform() < 0.5 else [0, 0, 0, 0] for _ in range(N)]
+        inp = {'pattern': pat, 'ndim': 2, 'inf': [int(x) for x in rng.integers(0, 4 * N, 2)] if rng.uniform() < 0.3 else []}
+        ctx.check('nan_intervals', inp, _call(o_nan_intervals, inp, 'get_nan_intervals'), nontrivial_key=('patr', str(pat)))
     # sequences
     for j, (kind, rows, mask) in enumerate(nan_sequences(rng, 40 * scale)):
-        rj = _rows_json(rows, mask)
+        rj = _rows_json(rows, mask, partial=rng if j % 3 else None)     # two of three sequences: partly-NaN rows among the gaps
         inp = {'rows': rj, 'inplace': bool(j % 2)}
         ctx.check('slerp_nan', inp, _call(o_slerp_nan, inp, 'slerp_nan'), nontrivial_key=('sn', kind, j) if any(mask) else None)
     # a gap between nearly antipodal / threshold-straddling / orthogonal neighbours, every run length 1..4
     for (region, p, q) in endpoint_pairs(rng, 0)[:60 * scale]:
         L = 1 + len(region) % 4
         rj = [p.tolist()] + [None] * L + [q.tolist()]
+        if L >= 2:          # a partly-NaN row next to fully-NaN rows inside one gap
+            rj[1 + len(region) % L] = [0.5, None, 0.5, 0.5]
         inp = {'rows': rj, 'inplace': False}
         ctx.check('slerp_nan', inp, _call(o_slerp_nan, inp, 'slerp_nan'), nontrivial_key=('sn-pair', region, L, tuple(np.round(q, 6))))
     for N in (1, 2, 3, 4, 5, 7):       # particular lengths, no NaN: the zero-run case of "valid rows unchanged"
@@ -667,7 +745,7 @@ def search(ctx, scale):
         mask = [bool(rng.uniform() < 0.15) and j % 4 == 0 for _ in range(N)]
         if all(mask):
             mask[0] = False
-        inp = {'rows': _rows_json(rows, mask), 'entry': ('remove_jumps', 'q_correct')[j % 2]}
+        inp = {'rows': _rows_json(rows, mask, partial=rng), 'entry': ('remove_jumps', 'q_correct')[j % 2]}
         ctx.check('remove_jumps', inp, _call(o_remove_jumps, inp, inp['entry']), nontrivial_key=('rj', j) if nj else None)
     ctx.samples.append({'kind': 'search', 'oracle': 'slerp', 'input': {'entry': 'quaternion', 'p': pairs[7][1].tolist(),
                                                                         'q': pairs[7][2].tolist(), 't': wvs[1]}})
